@@ -69,6 +69,12 @@ _ev = Stream('evparent', 'h_lookup', mode='modellookup', gen=lambda rng, tier: (
              nontrivial=lambda case, out: ' r' in case and ',' in out, spec_mode='speclookup')
 _ev.valid_case = _valid_evparent
 
+def extra(tier, seed, rng, res, broken):
+    """several threads take references on ONE span at the same moment (what entering it, creating children of it and cloning
+    it do): with a handle still held the span stays open and readable"""
+    from checks import stressgen
+    stressgen.stress_phase('cloneshared', tier, res, broken, seed)
+
 PROPERTY = {
     'manifest': {
         'text': "Lean 4 theorems: for EVERY per-thread enter/exit sequence without same-thread re-entry (any exit order) the SpanStack the code keeps equals the "
@@ -77,16 +83,21 @@ PROPERTY = {
                 "(parent_resolution); a scope is the span followed by the scope of its stored parent (scope_is_ancestor_chain). The hand-written model is run against the real "
                 "Registry (lookup_current, event_span, event_scope, scope, from_root = reverse, Span::current) on generated multi-thread histories and against the stack-free specification. "
                 "Events: an explicit-root event has no span, a contextual one the most recently entered span, an explicit parent exactly that span, and its scope is that span's ancestor chain "
-                "(event_parent_resolution, span_parent_resolution, event_scope_is_chain over Core/Lookup); recording layers look these up inside every callback for all three parent kinds (stream evparent).",
+                "(event_parent_resolution, span_parent_resolution, event_scope_is_chain over Core/Lookup); recording layers look these up inside every callback for all three parent kinds (stream evparent). "
+                "References taken concurrently on one span (enter on several threads, children, clones): a transition system over the atomic operations on its count, parametrised by whether clone_span is ONE fetch_add "
+                "(clone_code_fact, extracted from sharded.rs), any threads, every schedule: count = references outstanding (no_reference_lost), so a span is not closed under a thread inside it; with load-then-store one is lost "
+                "(lost_reference_witness); real threads cloning one span together (h_stress) must leave it open while a handle is held.",
         'note': "Trusted: Lean kernel; propext/Classical.choice/Quot.sound; slab key reuse abstracted (ids = creation indices); 'ancestors stay readable while a descendant is alive' is checked by "
                 "the correspondence/spec run (scope walks and presence lookups), its proof needs the reference-count invariant of C05 which is not yet a theorem; SpanTrace capture = a cloned handle.",
         'technique': 'Lean 4 proof (induction over enter/exit sequences) of a hand-written model + differential run against the real Registry',
     },
-    'lean_module': 'TracingModel.Props.C06E',
-    'leanchecker_modules': ['TracingModel.Props.C06'],
+    'lean_module': 'TracingModel.Props.C06A',
+    'leanchecker_modules': ['TracingModel.Props.C06', 'TracingModel.Props.C06E'],
+    'extra_bins': ['h_stress'],
     'namespace': 'C06',
-    'units': [],
-    'required_theorems': ['C06.current_is_last_unexited', 'C06.stack_is_spec', 'C06.thread_independent', 'C06.parent_resolution', 'C06.scope_is_ancestor_chain', 'C06.event_parent_resolution', 'C06.span_parent_resolution', 'C06.event_scope_is_chain'],
+    'units': ['AtomicCounts'],
+    'required_theorems': ['C06.current_is_last_unexited', 'C06.stack_is_spec', 'C06.thread_independent', 'C06.parent_resolution', 'C06.scope_is_ancestor_chain', 'C06.event_parent_resolution', 'C06.span_parent_resolution', 'C06.event_scope_is_chain',
+                          'C06.clone_code_fact', 'C06.no_reference_lost', 'C06.lost_reference_witness'],
     'streams': [
         Stream('hist', 'h_registry', gen=gen, nontrivial=nontrivial, spec_mode='spec'),
         Stream('reentry', 'h_registry', gen=gen_reentry, nontrivial=nontrivial),
